@@ -7,6 +7,7 @@ import NA.Proofs.F1K2
 import NA.Proofs.F1Idem
 import NA.Proofs.F1RouteSafe
 import NA.Proofs.F1Mode
+import NA.Proofs.F1GroupSafe
 /-!
 # F1 — the ASA diff engine on the fragment {access-group, access-list + object-group network, route}
 
@@ -736,6 +737,104 @@ theorem asa_group_edit_before_lines_counterexample :
       (execTrace (ofConfig exGDev) r.script).map fun d => xVerdict d "dmz_in" exGPkt) = some [false, true, false] := by
   refine ⟨by decide, by decide, by decide, by decide⟩
 
+/-! ## 12. F-C01c: a group equalised for a line that is then replaced stays `needed` (kernel-evaluated)
+
+Device: `g0` and the generated twin `g0-DRC-9` (same members); line 1 of `inside_in` uses `g0-DRC-9` and `g2`, line 2
+uses `g0`; `g2` is also used by the access list of `dmz`, an interface unknown to the target.  `equalizeACLs`
+equalises ALL references of a kept pair: (`g0-DRC-9`, `g0`) succeeds — the device group becomes `needed` —, (`g2`,
+`g2`) fails because `g2` is `needed` by the unknown interface; the line is re-added and deleted.  The kept pair of
+line 2 then re-maps the target's `g0` to the device's `g0` (the not-`needed` branch of `equalizedGroups` with an
+identity script does not look at `ready`), so the new line is printed with `g0`: `g0-DRC-9` loses its last
+reference in this very script, stays `needed`, and `deleteUnused` keeps it.  The next comparison removes it. -/
+
+def x2Line (act proto g1 g2 port : String) : Line :=
+  ⟨[act ++ " " ++ proto ++ " object-group ", " object-group ", " eq " ++ port],
+   [act ++ " " ++ proto ++ " object-group ", " object-group ", " eq " ++ port], [g1, g2]⟩
+
+def exCDev : Config :=
+  { intfs := ["inside", "dmz"],
+    groups := [("g0", ["host 10.1.1.1"]), ("g0-DRC-9", ["host 10.1.1.1"]), ("g2", ["host 10.4.4.4"])],
+    acls := [("inside_in", [x2Line "deny" "udp" "g0-DRC-9" "g2" "53", xLine "udp" "25" "g0"]), ("dmz_acl", [xLine "tcp" "22" "g2"])],
+    binds := [⟨"inside_in", "in", "inside"⟩, ⟨"dmz_acl", "in", "dmz"⟩] }
+def exCTgt : Config :=
+  { groups := [("g0", ["host 10.1.1.1"]), ("g2", ["host 10.4.4.4"])],
+    acls := [("inside_in", [x2Line "deny" "udp" "g0" "g2" "53", xLine "udp" "25" "g0"])],
+    binds := [⟨"inside_in", "in", "inside"⟩] }
+def exCScripts : Scripts :=
+  { acl := [(("inside_in", "inside_in"), [⟨0, 2, 0, 2⟩])],
+    grp := [(("g0-DRC-9", "g0"), [⟨0, 1, 0, 1⟩]), (("g0", "g0"), [⟨0, 1, 0, 1⟩]), (("g2", "g2"), [⟨0, 1, 0, 1⟩])] }
+def exCScripts2 : Scripts :=
+  { acl := [(("inside_in", "inside_in"), [⟨0, 2, 0, 2⟩])],
+    grp := [(("g0", "g0"), [⟨0, 1, 0, 1⟩]), (("g2-DRC-0", "g2"), [⟨0, 1, 0, 1⟩]), (("g0-DRC-9", "g0"), [⟨0, 1, 0, 1⟩])] }
+
+/-- **`needed_group_of_replaced_line_counterexample`** (F-C01c): the first script (accepted by the strict device,
+result equivalent to the target) leaves the generated group `g0-DRC-9` unreferenced; the second comparison is
+not empty and only removes it; the pair of the second comparison is outside class ISO. -/
+theorem needed_group_of_replaced_line_counterexample :
+    (engine exCDev exCTgt exCScripts).map (fun r => showChanges r.script) = some [
+      "object-group network g2-DRC-0", "network-object host 10.4.4.4",
+      "access-list inside_in line 1 extended deny udp object-group g0 object-group g2-DRC-0 eq 53",
+      "no access-list inside_in line 2 extended deny udp object-group g0-DRC-9 object-group g2 eq 53"] ∧
+    ((engine exCDev exCTgt exCScripts).bind fun r => (exec (ofConfig exCDev) r.script).map fun d =>
+      (leftovers d, (engine (toConfig d) exCTgt exCScripts2).map (fun r => showChanges r.script),
+       isoCheck (toConfig d) exCTgt exCScripts2)) =
+      some (["object-group g0-DRC-9"], some ["no object-group network g0-DRC-9"], false) := by
+  constructor <;> decide
+
+/-! ## 13. What C14 guarantees for the in-place edit of an UNSHARED object-group (complement of F-C14g)
+
+Hypothesis of the positive statement (decidable on the script and the two configurations): the group is used by ONE
+access-list line, no line of that access list is inserted, deleted or moved in the run (otherwise F-C14g), the other
+groups of that line are not edited, and the member texts of old and new group do not overlap (a packet address is
+covered by at most one of them — true for the hosts and disjoint networks Netspoc generates for one group). -/
+
+/-- Every state between two member commands of `equalizedGroups`' in-place edit holds a member set between
+`old ∩ new` and `old ∪ new` (for every valid script that does not delete and insert one member). -/
+theorem asa_unshared_group_edit_states_bounded (la lb cur : List String) (rs : List Range)
+    (hv : scriptOK la lb rs 0 0 = true) (hna : la.Nodup) (hnb : lb.Nodup) (hcur : cur.Perm la)
+    (hdisj : ∀ m ∈ inssOf lb rs, m ∉ delsOf la rs) (pre suf : List (Bool × String)) (hs : memOps la lb rs = pre ++ suf) :
+    ∃ M, applyMem cur pre = some M ∧ (∀ x, x ∈ la → x ∈ lb → x ∈ M) ∧ (∀ x ∈ M, x ∈ la ∨ x ∈ lb) :=
+  memOps_prefix_sandwich la lb cur rs hv hna hnb hcur hdisj pre suf hs
+
+/-- **`asa_unshared_group_edit_keeps_agreed_verdicts`** — the access list is `pre ++ [line with the group] ++ post`
+(first match, implicit deny; `pre`, `post` as the packet sees them and untouched in the run; `cov` = the one member
+text covering the packet's address, if any): in EVERY state of the member edit the packet gets the old or the new
+verdict; in particular a packet on which old and new agree keeps its verdict. -/
+theorem asa_unshared_group_edit_keeps_agreed_verdicts (la lb cur : List String) (rs : List Range)
+    (hv : scriptOK la lb rs 0 0 = true) (hna : la.Nodup) (hnb : lb.Nodup) (hcur : cur.Perm la)
+    (hdisj : ∀ m ∈ inssOf lb rs, m ∉ delsOf la rs) (pre suf : List (Bool × String)) (hs : memOps la lb rs = pre ++ suf)
+    (lpre lpost : List PLine) (act : Bool) (cov : Option String) :
+    ∃ M, applyMem cur pre = some M ∧
+      (evalG lpre act cov lpost M = evalG lpre act cov lpost la ∨ evalG lpre act cov lpost M = evalG lpre act cov lpost lb) ∧
+      (evalG lpre act cov lpost la = evalG lpre act cov lpost lb → evalG lpre act cov lpost M = evalG lpre act cov lpost la) := by
+  obtain ⟨M, h1, h2, h3⟩ := memOps_prefix_sandwich la lb cur rs hv hna hnb hcur hdisj pre suf hs
+  have h4 := evalG_old_or_new lpre lpost act cov la lb M h2 h3
+  refine ⟨M, h1, h4, ?_⟩
+  intro he
+  rcases h4 with h | h
+  · exact h
+  · rw [h, he]
+
+/-- Non-vacuity: members {h1,h2,h4} → {h1,h3,h4}; packet from `h1` behind a non-matching line: permitted in all states. -/
+example : (applyMem ["h4", "h1", "h2"] ((memOps ["h1", "h2", "h4"] ["h1", "h3", "h4"]
+      [⟨0, 1, 0, 1⟩, ⟨1, 2, 1, 1⟩, ⟨2, 2, 1, 2⟩, ⟨2, 3, 2, 3⟩]).take 1)).map
+    (fun M => evalG [(false, false)] true (some "h1") [] M) = some true := by decide
+
+/-- Both extra hypotheses are needed (kernel-evaluated on the abstract semantics).
+(1) Overlapping members: old `{10.1.0.0/16}`, new `{10.1.1.0/24}`, the packet address is covered by BOTH texts; the state
+after the delete and before the insert covers it by neither: permitted before and after, denied in between.
+(2) Two groups of one line edited one after the other (`A × B`): old `A={a1,a2}, B={b3,b4}`, new `A={a1,a5}, B={b3}`;
+packet (a5 → b4) matches neither old nor new line, but matches after `A` gained `a5` while `B` still has `b4`. -/
+theorem unshared_group_edit_needs_hypotheses :
+    -- (1) hit = some covering text is a member
+    (let hit := fun (M : List String) => M.contains "10.1.0.0/16" || M.contains "10.1.1.0/24"
+     (hit ["10.1.0.0/16"], hit [], hit ["10.1.1.0/24"]) = (true, false, true)) ∧
+    (applyMem ["10.1.0.0/16"] ((memOps ["10.1.0.0/16"] ["10.1.1.0/24"] [⟨0, 1, 0, 0⟩, ⟨1, 1, 0, 1⟩]).take 1) = some []) ∧
+    -- (2) hit = source in A and destination in B
+    (let hit2 := fun (A B : List String) => A.contains "a5" && B.contains "b4"
+     (hit2 ["a1", "a2"] ["b3", "b4"], hit2 ["a1", "a2", "a5"] ["b3", "b4"], hit2 ["a1", "a5"] ["b3"]) = (false, true, false)) := by
+  refine ⟨by decide, by decide, by decide⟩
+
 def obligations : List Lean.Name := [
   ``names_fresh, ``names_injective, ``findGroup_sound, ``findGroup_first,
   ``group_equalize_converges, ``group_edit_emits_memOps, ``group_needed_never_edited, ``group_edit_only_if_small,
@@ -748,6 +847,7 @@ def obligations : List Lean.Name := [
   ``diffUnordered_computes, ``asa_routes_script_is_model, ``asa_routes_phases, ``asa_routes_covered_every_step,
   ``asa_F1_subcommands_in_own_mode, ``asa_F1_member_command_in_parent_mode, ``asa_F1_no_referenced_object_deleted,
   ``two_routes_one_prefix_outside_spec, ``k2_not_closed_under_prefix,
-  ``asa_group_edit_before_lines_counterexample]
+  ``asa_group_edit_before_lines_counterexample, ``needed_group_of_replaced_line_counterexample,
+  ``asa_unshared_group_edit_states_bounded, ``asa_unshared_group_edit_keeps_agreed_verdicts, ``unshared_group_edit_needs_hypotheses]
 
 end NA.F1
